@@ -53,12 +53,15 @@ def cases(draw):
         d = draw(st.sampled_from([1, 2, 3, 4, 4]))      # (the renderer has one code path per dimensionality)
     if op in ("f_add_fiber", "f_mul_fiber"):
         d = draw(st.sampled_from([1, 2, 2, 3, 2]))      # (with fibers below the operand + and * recurse)
+    if op == "swizzle":
+        d = draw(st.sampled_from([2, 3, 3, 4]))         # (a swizzle may leave the lowest ranks where they are)
     if level == "unowned":
         d = min(d, 2)
     c = {"family": fam, "level": level, "op": op,
          "how": draw(st.sampled_from(["ref", "fiber", "uncompressed", "yaml", "deepcopy"])),
          "sel": draw(st.lists(st.integers(0, 9), min_size=4, max_size=4)),
-         "perm": list(draw(st.permutations([0, 1, 2]))),
+         "perm": list(draw(st.permutations([0, 1, 2]))) + [3] if d < 4 or draw(st.booleans())
+         else list(draw(st.permutations([0, 1, 2, 3]))),
          "style": draw(st.sampled_from(["tuple", "pair"])),
          "mstyle": draw(st.sampled_from(["absolute", "relative"])),
          "fmtU": draw(st.booleans()),
